@@ -45,7 +45,16 @@ def build(repo):
             Rule("R1", "Self {", op + " {", why="Self"),
         ]
         bn = translate(fnew["body"], R, log, f"{op}::new"); check_closed(bn, f"{op}::new")
-        bf = translate(L.cells_pass(ffin["body"], log, f"{op}::finish"), R, log, f"{op}::finish"); check_closed(bf, f"{op}::finish")
+        fin = list(ffin["body"])
+        for a, b_ in ((["self", ".", field], ["verif_res"]), (["self", ".", "underlying"], ["verif_und"])):
+            k = 0
+            while k + len(a) <= len(fin):
+                if fin[k:k + len(a)] == a:
+                    fin[k:k + len(a)] = b_
+                k += 1
+        fin = lex(f"let verif_res = & self . {field} ; let verif_und = & self . underlying ;") + fin
+        log.append(("R1", f"self.{field} / self.underlying", "verif_res / verif_und", "the two list handles of the bridge bound to locals (so that cell accesses on them are recognised)"))
+        bf = translate(L.cells_pass(fin, log, f"{op}::finish"), R, log, f"{op}::finish"); check_closed(bf, f"{op}::finish")
         parts.append(f"""
 impl {op} {{
     //@ OBL C13.bridge.{op}.new
